@@ -124,7 +124,7 @@ class Wrap(Module):
 
 
 def build(k):
-    with watchdog(120, f"ECCEncoder({k})/ECCDecoder({k}) constructor"):
+    with watchdog(30, f"ECCEncoder({k})/ECCDecoder({k}) constructor"):
         return Wrap(k)
 
 
@@ -419,7 +419,7 @@ GEOM_HELPERS = ("compute_m_n", "compute_syndrome_positions", "compute_data_posit
 
 
 def geom_call(helper, args):
-    with watchdog(20, f"{helper}{tuple(args)}"):
+    with watchdog(10, f"{helper}{tuple(args)}"):
         r = getattr(_ecc, helper)(*args)
     if helper == "compute_m_n":
         return list(r)
@@ -462,6 +462,7 @@ def run_geometry(cfg):
     evals = 0
     sample = None
     cov = dict(widths=0, perfect_codes=0, shortened_codes=0, cover_sets=0)
+    dead = set()
     for k in range(1, kmax + 1):
         m, n = ref_m_n(k)
         # sanity of the reference itself: every position has a distinct non-zero column, all columns fit in m bits
@@ -476,7 +477,11 @@ def run_geometry(cfg):
         calls += [("compute_cover_positions", (n, 1 << i)) for i in range(m)]
         cov["cover_sets"] += m
         for helper, args in calls:
+            if helper in dead:          # this helper already hung once: do not wait for it 1000 times
+                continue
             rule, got, exp = geom_check(helper, args)
+            if rule and rule.startswith("geom.hang"):
+                dead.add(helper)
             evals += 1
             seen.add((helper, args))
             if rule:
@@ -485,7 +490,7 @@ def run_geometry(cfg):
                                              trace=[dict(helper=helper, args=list(args))]))
             elif sample is None and helper == "compute_cover_positions" and k == 11 and args[1] == 4:
                 sample = dict(helper=helper, args=list(args), result=got)
-    return dict(cfg=name, cfg_args=list(cfg), exhaustive=True, violations=col.violations(), evaluations=evals,
+    return dict(cfg=name, cfg_args=list(cfg), exhaustive=not dead, violations=col.violations(), evaluations=evals,
                 distinct=len(seen), conformed=0, sample=sample, cover=cov)
 
 
